@@ -22,6 +22,77 @@ impl<'ast> Visit<'ast> for Checks {
     }
 }
 
+/// every `*.rs` below `dir`, the `verif` hook directories excluded
+fn rs_files(dir: &std::path::Path, out: &mut Vec<PathBuf>) -> Result<(), String> {
+    for e in std::fs::read_dir(dir).map_err(|e| format!("{}: {e}", dir.display()))? {
+        let p = e.map_err(|e| e.to_string())?.path();
+        if p.is_dir() {
+            if p.file_name().and_then(|n| n.to_str()) != Some("verif") {
+                rs_files(&p, out)?;
+            }
+        } else if p.extension().and_then(|x| x.to_str()) == Some("rs") {
+            out.push(p);
+        }
+    }
+    Ok(())
+}
+
+/// struct EXPRESSIONS (not patterns) that build a `QuoteVerification { .. }` value, by the enum named before the variant
+#[derive(Default)]
+struct Constructed {
+    event: usize,
+    bare: usize,
+}
+impl<'ast> Visit<'ast> for Constructed {
+    fn visit_expr_struct(&mut self, e: &'ast syn::ExprStruct) {
+        let segs: Vec<String> = e.path.segments.iter().map(|s| s.ident.to_string()).collect();
+        if segs.last().map(|s| s.as_str()) == Some("QuoteVerification") {
+            match segs.len().checked_sub(2).map(|i| segs[i].as_str()) {
+                Some("NetworkEvent") => self.event += 1,
+                Some("LocalSwarmCmd") => {}
+                _ => self.bare += 1,
+            }
+        }
+        syn::visit::visit_expr_struct(self, e);
+    }
+    fn visit_macro(&mut self, m: &'ast syn::Macro) {
+        // a construction inside a macro invocation (e.g. `tokio::select!`) is not parsed by syn: look at its tokens
+        let t = m.tokens.to_string().replace(' ', "");
+        if t.contains("NetworkEvent::QuoteVerification{") && !t.contains("NetworkEvent::QuoteVerification{quotes}=>") {
+            self.event += 1;
+        }
+    }
+}
+
+/// Is `NetworkEvent::QuoteVerification` constructed anywhere in the production sources of ant-networking / ant-node
+/// (the event that leads a node into `quotes_verification` → `historical_verify_quotes` → `verify_peer_quote`)?
+/// And is the chain from the event to the checker what the `quoteduty` / `quotehist` components drive?
+fn dispatch_flags(repo: &PathBuf) -> Result<(bool, bool), String> {
+    let mut files = vec![];
+    rs_files(&repo.join("ant-networking/src"), &mut files)?;
+    rs_files(&repo.join("ant-node/src"), &mut files)?;
+    let mut c = Constructed::default();
+    for f in &files {
+        let file = parse_file(f)?;
+        c.visit_file(&file);
+    }
+    if c.bare > 0 {
+        return Err(format!("a `QuoteVerification {{ .. }}` value is built through a path that names neither NetworkEvent nor LocalSwarmCmd ({} times): cannot tell which", c.bare));
+    }
+    let text = |rel: &str| -> Result<String, String> { Ok(norm(&parse_file(&repo.join(rel))?)) };
+    let node = text("ant-node/src/node.rs")?;
+    let quote_rs = parse_file(&repo.join("ant-node/src/quote.rs"))?;
+    let qv = norm(&free_fn(&quote_rs, "quotes_verification")?.block);
+    let lib = parse_file(&repo.join("ant-networking/src/lib.rs"))?;
+    let hv = norm(&impl_fn(&lib, "Network", None, "historical_verify_quotes")?.block);
+    let cmd = text("ant-networking/src/cmd.rs")?;
+    let chain = node.contains("NetworkEvent::QuoteVerification{quotes}=>{") && node.contains("quotes_verification(&network,quotes).await")
+        && qv.contains("network.historical_verify_quotes(quotes_for_nodes_duty)")
+        && hv.contains("self.send_local_swarm_cmd(LocalSwarmCmd::QuoteVerification{quotes})")
+        && cmd.contains("LocalSwarmCmd::QuoteVerification{quotes}=>{") && cmd.contains("self.verify_peer_quote(peer_id,quote)");
+    Ok((c.event > 0, chain))
+}
+
 pub fn generate(repo: &PathBuf) -> Result<String, String> {
     let rel = "ant-networking/src/lib.rs";
     let file = parse_file(&repo.join(rel))?;
@@ -69,6 +140,11 @@ pub fn generate(repo: &PathBuf) -> Result<String, String> {
     s.push_str("/-- the quote's content address is compared with the requested address -/\n");
     s.push_str(&format!("def checksContent : Bool := {}\n", lean_bool(checks_content)));
     s.push_str(&format!("def closeGroupSize : Nat := {cgs}\n"));
+    let (dispatched, chain) = dispatch_flags(repo)?;
+    s.push_str("/-- some production code of ant-networking / ant-node (hook directories excluded) constructs `NetworkEvent::QuoteVerification`,\nthe only way into `quotes_verification` → `historical_verify_quotes` → `SwarmDriver::verify_peer_quote` -/\n");
+    s.push_str(&format!("def quoteVerificationDispatched : Bool := {}\n", lean_bool(dispatched)));
+    s.push_str("/-- from the event on, the chain is the one the components `quoteduty` / `quotehist` drive: node.rs hands the event's quotes to\n`quotes_verification`, which sends `LocalSwarmCmd::QuoteVerification`, whose arm calls `verify_peer_quote` per quote -/\n");
+    s.push_str(&format!("def checkerChainIntact : Bool := {}\n", lean_bool(chain)));
     s.push_str("end SafeNet.Gen.QuoteFetch\n");
     Ok(s)
 }
